@@ -15,6 +15,7 @@ package protocol
 //@   ensures [updated] result0 ==> s.highQC == qc && qc.view > old(s.highQC.view)
 //@   ensures [unchanged] !result0 ==> s.highQC == old(s.highQC)
 //@   ensures [inv] vswf(s)
+//@   ensures [stores] blockchain.entrieskept()
 //@   modifies s.highQC, s.blockchain.blocks[*], s.blockchain.blockAtHeight[*], s.blockchain.pendingFetch[*], s.blockchain.eventLoop.handlers[*], alloc
 
 //@ func (*ViewStates).UpdateHighTC property C07
